@@ -865,6 +865,10 @@ func (c *CertificateContext) Sign(alg SignatureAlgorithm) (*Certificate, error) 
 		out.TBSCertificate.SignatureAlgorithm = pkix.AlgorithmIdentifier{
 			Algorithm: sigAlgOids[alg],
 		}
+		//RSA PKCS#1 v1.5 algorithm identifiers carry NULL parameters (RFC 4055)
+		if _, _, _, wantKey, err := resolveAlg(alg); err == nil && wantKey == rsaKey {
+			out.TBSCertificate.SignatureAlgorithm.Parameters = asn1.NullRawValue
+		}
 	}
 	out.TBSCertificate.Issuer = c.Issuer.IssuerDn
 
@@ -893,6 +897,9 @@ func (c *CertificateContext) Sign(alg SignatureAlgorithm) (*Certificate, error) 
 	hashAlgId, hashAlg, out.SignatureAlgorithm.Algorithm, wantKey, err = resolveAlg(alg)
 	if err != nil {
 		return nil, err
+	}
+	if wantKey == rsaKey {
+		out.SignatureAlgorithm.Parameters = asn1.NullRawValue
 	}
 
 	hashAlg.Write(b)
